@@ -8,7 +8,7 @@
      SetMlxc(f)        ks.set_mlxc(model)          new integrator object; the grid OBJECT is replaced only when the
                                                    grid CLASS has to change, the seven user grid attributes are carried over
      SetGridAttr(a,v)  ks.grids.<a> = v            pyscf Grids.__setattr__ -> grids.reset(): same object, content dropped
-     Build             ks.build()                  integrator.build(mol=None): generators dropped, timer created
+     Build(withmol)    ks.build([mol])             integrator.build(mol): generators dropped, timer created
      InitGrids         ks.initialize_grids(..)     first half of get_veff: builds the grid IN PLACE when it has no content
                                                    (CiderGrids.build creates a NEW indexer object every time)
      NrCall(ns)        ks._numint.nr_rks/nr_uks    second half of get_veff: (re)initialisation predicate of the NLDF / SDMX
@@ -94,9 +94,11 @@ SetGridAttr(l, s) ==
   /\ grids' = [grids EXCEPT !.level = l, !.scheme = s, !.content = 0, !.indexer = 0]
   /\ err' = "ok" /\ UNCHANGED <<ks, ni, nid, last>>
 
-Build ==
+\* ks.build() passes mol=None on to the integrator, scf.kernel() calls build(self.mol): the integrator's mol attribute
+\* differs, the generators are dropped either way
+Build(withmol) ==
   /\ Tick /\ ks.decorated
-  /\ ni' = [ni EXCEPT !.mol = NoMol, !.gen = None, !.sdmx = None, !.timer = TRUE]
+  /\ ni' = [ni EXCEPT !.mol = IF withmol THEN ks.mol ELSE NoMol, !.gen = None, !.sdmx = None, !.timer = TRUE]
   /\ err' = "ok" /\ UNCHANGED <<ks, grids, nid, last>>
 
 InitGrids ==
@@ -157,7 +159,7 @@ Next == \/ \E sp \in {"R", "U"}, l \in Levels, s \in Schemes : Configure(sp, l, 
         \/ \E f \in Families : Decorate(f) \/ SetMlxc(f)
         \/ Redecorate
         \/ \E l \in Levels, s \in Schemes : SetGridAttr(l, s)
-        \/ Build \/ InitGrids \/ NrCall(NSpin(ks.spin))
+        \/ (\E wm \in BOOLEAN : Build(wm)) \/ InitGrids \/ NrCall(NSpin(ks.spin))
         \/ \E m \in Mols : Reset(m)
         \/ DensityFit \/ ToOtherSpin \/ \E meth \in BlockedMethods : Unsupported(meth)
 Spec == Init /\ [][Next]_vars
@@ -183,7 +185,7 @@ GeneratorCurrent ==
 SDMXCurrent ==
   (last # None /\ HasSDMX(last.fam)) => (last.sdmx # None /\ last.sdmx.mol = last.mol /\ last.sdmx.nspin = last.ns)
 NoGeneratorAfterReset == [][(\E m \in Mols : Reset(m)) => (ni'.gen = None /\ ni'.sdmx = None /\ grids'.content = 0)]_vars
-NoGeneratorAfterBuild == [][Build => (ni'.gen = None /\ ni'.sdmx = None)]_vars
+NoGeneratorAfterBuild == [][(\E wm \in BOOLEAN : Build(wm)) => (ni'.gen = None /\ ni'.sdmx = None)]_vars
 \* a generator is only re-created when something it depends on changed (no needless rebuild in an SCF loop)
 NoNeedlessRebuild ==
   [][\A ns \in 1..2 : (NrCall(ns) /\ err' = "ok" /\ ni.gen # None /\ HasNLDF(ni.fam) /\ ni.gen.nspin = ns
